@@ -169,6 +169,56 @@ func c14(c *Ctx) {
 		ok = mustPassBeforeLeaving(post, e.pred)
 		R.Check("C14.retry-effects", "C14.retry-effects/"+strings.ReplaceAll(e.name, " ", "-"), c.rel(p.Pos(post.Pos())), "on the retry branch every path performs: "+e.name, ok, "a path leaves the retry branch without it")
 	}
+	// ---- progress: the settle case can be taken only once per entry (otherwise it shadows every later case forever)
+	nsettle := 0
+	for _, b := range fn.Blocks {
+		iff, ok := b.Instrs[len(b.Instrs)-1].(*ssa.If)
+		if !ok {
+			continue
+		}
+		isSettle := false
+		for _, conj := range facts.DNF(iff.Cond, true) {
+			hasNot, hasAge := false, false
+			for _, x := range conj {
+				if x.Atom == "!"+s+".settled" {
+					hasNot = true
+				}
+				if x.Atom == fmt.Sprintf("%d < time.Since(%s.firstObserved)", stl, s) {
+					hasAge = true
+				}
+			}
+			if hasNot && hasAge {
+				isSettle = true
+			}
+		}
+		if !isSettle || len(b.Succs) != 2 {
+			continue
+		}
+		nsettle++
+		body := b.Succs[0]
+		ok2 := false
+		if len(body.Instrs) > 0 {
+			isStore := func(i ssa.Instruction) bool {
+				st, ok := i.(*ssa.Store)
+				return ok && fieldOfAddr(st.Addr) == a.vs["settled"] && !isFalseConst(st.Val) && strings.HasPrefix(facts.Term(st.Addr), s+".")
+			}
+			ok2 = isStore(body.Instrs[0]) || mustPassBeforeLeaving(body.Instrs[0], isStore)
+		}
+		R.Check("C14.progress", R.Key("C14.progress", shortFn(fn), "settle-once"), c.rel(p.Pos(instrPos(iff))), "every path through the settle case marks the entry settled (otherwise that case matches on every tick and the retry and expiry cases are never reached for the entry)", ok2, "a path leaves the settle case without storing settled = true")
+	}
+	R.Floor("C14.progress.settle-case", nsettle, 1)
+	// an existing entry (with its retry counter and last-retry time) is never replaced
+	for _, st := range mapUpdatesOnField(p, a.fVaaSigs) {
+		mu := st.Instr.(*ssa.MapUpdate)
+		mapT := facts.Term(mu.Map) + "[" + facts.Term(mu.Key) + "]"
+		okC := false
+		for _, f := range facts.At(mu, nil) {
+			if f.Atom == mapT+" == nil" && a.w.unstable(f, mu) == "" {
+				okC = true
+			}
+		}
+		R.Check("C14.progress", R.Key("C14.progress", shortFn(st.Fn), "mapupdate:vaaSignatures"), c.sitePos(p, st), "an aggregation entry is created only when none exists (re-observing a message never resets retryCount / lastRetry / firstObserved)", okC, "the entry for the digest can be replaced by a fresh one, which resets its retry schedule and budget")
+	}
 	// ---- progress: who writes retryCount / lastRetry
 	for _, name := range []string{"retryCount", "lastRetry"} {
 		n := 0
